@@ -62,7 +62,7 @@ func ruleTruncateShapes(c *eng.Ctx) {
 	if !okRange {
 		// the same range walked from the newest end: i starts at len-1 and the body runs on i > idx
 		idxV := func(v ssa.Value) bool { return eng.Call(1, cl+"findSegment")(v) || eng.Call(-1, cl+"findSegment")(v) }
-		above := eng.CmpEdges(fn, isPhi, idxV, eng.GT)
+		above, exact := aboveIndex(fn, isPhi, idxV)
 		g3, _ := eng.GuardedBy(fn, laterDel.(ssa.Instruction), above)
 		startsAtEnd := false
 		if ia := indexOfLoad(laterDel.Common().Args[0]); ia != nil {
@@ -74,7 +74,7 @@ func ruleTruncateShapes(c *eng.Ctx) {
 				}
 			}
 		}
-		okRange = g3 && len(above) > 0 && startsAtEnd && eng.ExactCmp(fn, isPhi, idxV, eng.GT)
+		okRange = g3 && len(above) > 0 && startsAtEnd && exact
 	}
 	c.Check(okRange, "later segments are deleted for i < len(l.segments)", c.Pos(laterDel.(ssa.Instruction)), "loop bound i < len(l.segments), body on the < edge", "the loop deleting the segments after the one holding the offset does not run exactly over idx+1 … len(l.segments)-1")
 
@@ -219,4 +219,20 @@ func ruleTruncateShapes(c *eng.Ctx) {
 		}
 	}
 	c.Check(ok7, "a failed step of Truncate aborts it", p.Pos(fn.Pos()), "l.segments = segments is reached only over err == nil of every Delete / Truncated / WriteMessageSet / Replace before it", "Truncate: "+why7+": the log's segment list no longer describes the files on disk")
+}
+
+// aboveIndex: the edges on which a loop counter is above idx, written either as i > idx or as i >= idx+1 (the same test
+// over the integers; the second form appears when the lower bound is handed to a helper as idx+1 — benign variant B59).
+func aboveIndex(fn *ssa.Function, counter, idx eng.VM) ([]eng.Edge, bool) {
+	gt := eng.CmpEdges(fn, counter, idx, eng.GT)
+	next := eng.Bin(token.ADD, idx, eng.IntConst(1))
+	ge := eng.CmpEdges(fn, counter, next, eng.GE)
+	exact := true
+	if len(gt) > 0 && !eng.ExactCmp(fn, counter, idx, eng.GT) {
+		exact = false
+	}
+	if len(ge) > 0 && !eng.ExactCmp(fn, counter, next, eng.GE) {
+		exact = false
+	}
+	return append(gt, ge...), exact
 }
